@@ -54,9 +54,11 @@ pub fn gb18030_tokens() -> Vec<&'static [u8]> {
 
 /// Scalar alphabet for encoder histories (all encoders share it; each one meets mappable,
 /// unmappable, folded, state-switching and astral characters in it).
-pub const SCALARS: [u32; 24] = [0x00, 0x41, 0x3B, 0x5C, 0x7E, 0x0E, 0x1B, 0x80, 0xA5, 0xE9, 0x203E, 0x2212, 0x3042, 0x4E00, 0xFF71, 0xAC00, 0x20AC, 0xE5E5, 0xE78D, 0x2550, 0xF780, 0xFFFD, 0x1F4A9, 0x2008A];
-pub const SCALARS_SMALL: [u32; 12] = [0x00, 0x41, 0x5C, 0x1B, 0xA5, 0xE9, 0x3042, 0x4E00, 0xFF71, 0x20AC, 0xF780, 0x1F4A9];
-pub const SCALARS_WIDE: [u32; 40] = [0x00, 0x41, 0x20, 0x2C, 0x3B, 0x5C, 0x7E, 0x7F, 0x0E, 0x0F, 0x1B, 0x80, 0xA5, 0xE9, 0xFF, 0x100, 0x203E, 0x2212, 0x20AC, 0x3042, 0x30A2, 0x4E00, 0x4EDD, 0xFF61, 0xFF71, 0xFF9F, 0xAC00, 0xE5E5, 0xE7C7, 0xE78D, 0xE864, 0x2550, 0x5341, 0xF780, 0xF7FF, 0xFFFD, 0x1F4A9, 0x2008A, 0x10FFFF, 0x0411];
+pub const SCALARS: [u32; 25] = [0x00, 0x41, 0x3B, 0x5C, 0x7E, 0x0E, 0x1B, 0x80, 0xA5, 0xE9, 0x203E, 0x2212, 0x3042, 0x4E00, 0xFF71, 0xAC00, 0x20AC, 0xE5E5, 0xE78D, 0x2550, 0xF780, 0xFFFD, 0x10000, 0x1F4A9, 0x2008A];
+/// (U+10000 = 65536 and U+1F4A9 = 128169 are in different NCR length classes)
+pub const SCALARS_SMALL: [u32; 13] = [0x00, 0x41, 0x5C, 0x1B, 0xA5, 0xE9, 0x3042, 0x4E00, 0xFF71, 0x20AC, 0xF780, 0x10000, 0x1F4A9];
+/// includes a scalar of every NCR digit-count class (2..7 digits) and both sides of 65536/100000/1000000
+pub const SCALARS_WIDE: [u32; 46] = [0x10000, 0x1869F, 0x186A0, 0xF423F, 0xF4240, 0x3E8, 0x00, 0x41, 0x20, 0x2C, 0x3B, 0x5C, 0x7E, 0x7F, 0x0E, 0x0F, 0x1B, 0x80, 0xA5, 0xE9, 0xFF, 0x100, 0x203E, 0x2212, 0x20AC, 0x3042, 0x30A2, 0x4E00, 0x4EDD, 0xFF61, 0xFF71, 0xFF9F, 0xAC00, 0xE5E5, 0xE7C7, 0xE78D, 0xE864, 0x2550, 0x5341, 0xF780, 0xF7FF, 0xFFFD, 0x1F4A9, 0x2008A, 0x10FFFF, 0x0411];
 /// lone surrogate atoms for UTF-16 sources
 pub const LONE: [u32; 4] = [0xD800, 0xDBFF, 0xDC00, 0xDFFF];
 
@@ -81,7 +83,9 @@ pub fn encoder_alpha(enc: &'static Encoding) -> Vec<u32> {
     let oe = enc.output_encoding();
     let cache = CACHE.get_or_init(|| Mutex::new(HashMap::new()));
     if let Some(v) = cache.lock().unwrap().get(oe.name()) { return v.clone(); }
-    let mut v: Vec<u32> = vec![0x00, 0x41, 0x3B, 0x5C, 0x7E, 0x0E, 0x1B, 0x80, 0xA5, 0x203E, 0x2212, 0x20AC, 0xE5E5, 0xE7C7, 0xE78D, 0x2550, 0x5341, 0xF780, 0xFFFD, 0x10FFFF];
+    let mut v: Vec<u32> = vec![0x00, 0x41, 0x3B, 0x5C, 0x7E, 0x0E, 0x1B, 0x80, 0xA5, 0x203E, 0x2212, 0x20AC, 0xE5E5, 0xE7C7, 0xE78D, 0x2550, 0x5341, 0xF780, 0xFFFD, 0x10FFFF,
+        // NCR digit-count class boundaries (9/10 ... 999999/1000000)
+        0x63, 0x64, 0x3E7, 0x3E8, 0x270F, 0x2710, 0xFFFF, 0x10000, 0x1869F, 0x186A0, 0xF423F, 0xF4240];
     for &(lo, hi) in SCRIPT_RANGES.iter() {
         let step = if hi - lo > 0x4000 { 7 } else { 1 };
         let mut first_m = None; let mut last_m = None; let mut first_u = None; let mut mid_u = None;
